@@ -25,26 +25,39 @@ def register(CHECKS, H):
     quick = []
     for c in sorted(COLS):
         # every history of depth <= 7 on the triangle universe, all three front-ends
-        quick.append(_run(c, "triangle", 7, valdepth=5, fedepth=7, shards=2 if c != DEFAULT else 3))
-    for c in (DEFAULT, 8):
-        quick.append(_run(c, "square", 6, valdepth=0, fedepth=6, shards=2))
-        quick.append(_run(c, "two_triangles", 6, valdepth=0, fedepth=6, shards=2))
-        quick.append(_run(c, "cw", 7, valdepth=5, fedepth=7))
-    for c in (DEFAULT, 1, 6):
+        quick.append(_run(c, "triangle", 7, valdepth=5, fedepth=7, shards=2))
+        # every history of depth <= 3..5 after the full complex has been built (many cycles alive, removals with several
+        # vine swaps: the part a search from the empty complex does not reach within its depth)
         quick.append(_run(c, "two_triangles", 4, fedepth=4, seed="all"))
+        quick.append(_run(c, "two_triangles", 3, fedepth=3, seed="allrev"))
         quick.append(_run(c, "tetra_skeleton", 3, fedepth=3, seed="all"))
         quick.append(_run(c, "square", 5, fedepth=5, seed="all"))
+    for c in (DEFAULT, 8):
+        quick.append(_run(c, "square", 6, fedepth=6, shards=2))
+        quick.append(_run(c, "two_triangles", 6, fedepth=6, shards=2))
+        quick.append(_run(c, "cw", 7, valdepth=5, fedepth=7))
 
     thorough = []
+    DEEP = (1, 7)  # SET, INTRUSIVE_LIST: full depth next to the default column type
     for c in sorted(COLS):
-        thorough.append(_run(c, "triangle", 10, valdepth=6, fedepth=9, shards=6 if c == DEFAULT else 4, timeout=3000))
-        thorough.append(_run(c, "square", 8, fedepth=7, shards=2, timeout=3000))
-        thorough.append(_run(c, "two_triangles", 8, fedepth=7, shards=2, timeout=3000))
-        thorough.append(_run(c, "cw", 10, valdepth=6, fedepth=9, timeout=3000))
+        d = c == DEFAULT
+        if d:
+            thorough.append(_run(c, "triangle", 10, valdepth=6, fedepth=9, shards=8, timeout=3000))
+            thorough.append(_run(c, "square", 8, fedepth=7, shards=3, timeout=3000))
+            thorough.append(_run(c, "two_triangles", 8, fedepth=7, shards=3, timeout=3000))
+            thorough.append(_run(c, "cw", 10, valdepth=6, fedepth=9, shards=2, timeout=3000))
+        else:
+            thorough.append(_run(c, "triangle", 10 if c in DEEP else 9, valdepth=5, fedepth=7, shards=4 if c in DEEP else 2,
+                                 timeout=3000))
+            thorough.append(_run(c, "square", 7, fedepth=6, timeout=3000))
+            thorough.append(_run(c, "two_triangles", 7, fedepth=6, timeout=3000))
+            thorough.append(_run(c, "cw", 9, valdepth=5, fedepth=8, timeout=3000))
         thorough.append(_run(c, "triangle", 8, fedepth=8, seed="all", timeout=3000))
         thorough.append(_run(c, "square", 7, fedepth=7, seed="all", timeout=3000))
         thorough.append(_run(c, "two_triangles", 6, fedepth=6, seed="all", timeout=3000))
+        thorough.append(_run(c, "two_triangles", 5, fedepth=5, seed="allrev", timeout=3000))
         thorough.append(_run(c, "tetra_skeleton", 5, fedepth=5, seed="all", timeout=3000))
+        thorough.append(_run(c, "tetra_skeleton", 4, fedepth=4, seed="allrev", timeout=3000))
 
     CHECKS["C07"] = {
         "units": units,
@@ -56,35 +69,39 @@ def register(CHECKS, H):
                       "types, compared with a definition-level oracle (rank of lim -> colim on every sub-interval of the "
                       "zigzag module, GF(2) linear algebra on explicit homology groups)"),
         "level_text": ("every zigzag history (insert_cell / remove_cell / apply_identity, every intermediate set a complex) from "
-                       "the empty complex up to depth 7 (thorough: 10) over the 7 cells of a triangle, up to depth 6 (thorough: 8) "
-                       "over a square with one 4-sided 2-cell and over two triangles sharing an edge, up to depth 7 (thorough: 10) "
-                       "over a small CW universe with loops and a sphere cell (general, non-simplicial cells), and every history "
-                       "of depth <= 3..5 (thorough: 5..8) that starts from the full triangle / square / two-triangle / hollow-"
-                       "tetrahedron complex, is executed on the real classes for all 8 column types; after the last step of "
-                       "every history the streamed finite intervals, the currently open ones and the dimension labels are "
-                       "compared as multisets with the interval decomposition computed from the definition; the two filtered "
-                       "front-ends are compared on the same histories with every monotone value sequence over {0,1,2} at "
-                       "small depth and three fixed sequences above, cell keys arbitrary integers, ignoreCyclesAboveDim in "
-                       "{-1,0,1,2}; insertion-only histories are also compared with a column reduction of the boundary "
-                       "matrix. Longer histories, larger complexes and coefficient fields other than Z_2 (not offered by the "
-                       "class) are not covered"),
+                       "the empty complex up to depth 7 (thorough: 10 for 3 column types, 9 for the other 5) over the 7 cells of a "
+                       "triangle, up to depth 6 (thorough: 8 / 7) over a square with one 4-sided 2-cell and over two triangles "
+                       "sharing an edge, up to depth 7 (thorough: 10 / 9) over a small CW universe with loops and a sphere cell "
+                       "(general, non-simplicial cells), and every history of depth <= 3..5 (thorough: 4..8) that starts from the "
+                       "full triangle / square / two-triangle / hollow-tetrahedron complex, is executed on the real classes for "
+                       "all 8 column types; after the last step of every history the streamed finite intervals, the currently "
+                       "open ones and the dimension labels are compared as multisets with the interval decomposition computed "
+                       "from the definition; the two filtered front-ends are compared on the same histories with every "
+                       "monotone value sequence over {0,1,2} at small depth and three fixed sequences above, cell keys "
+                       "arbitrary integers, ignoreCyclesAboveDim in {-1,0,1,2}; insertion-only histories are also compared "
+                       "with a column reduction of the boundary matrix. Longer histories, larger complexes and coefficient "
+                       "fields other than Z_2 (not offered by the class) are not covered"),
         "level_note": ("trusted: the ~250-line RefZigzag oracle (validated at start-up of every process against the 29-operation "
                        "filtration and the 16 stored intervals of the repository's unit test, on all its prefixes, and its two "
                        "accelerations against the plain definition), ref::persistence, g++/ASan/UBSan"),
-        "rule": ("one state = one operation history (all distinct, no deduplication); each is replayed from scratch on a fresh "
-                 "Zigzag_persistence (ev.traces counts every replay, also those of the filtered front-ends per value sequence "
-                 "and ignoreCyclesAboveDim) and the streamed intervals + get_current_infinite_intervals, resp. "
-                 "get_index_persistence_diagram / get_persistence_diagram / the streamed value intervals, are compared as "
-                 "sorted multisets with the oracle (ev.evaluations = multiset comparisons); ev.transitions = API calls; "
-                 "non-trivial = history with at least one removal whose decomposition has at least one finite bar"),
+        "rule": ("one state = one (operation history, column type) pair - histories are all distinct, there is no "
+                 "deduplication; each is replayed from scratch on a fresh Zigzag_persistence (ev.traces counts every replay, "
+                 "also those of the filtered front-ends per value sequence and ignoreCyclesAboveDim) and the streamed "
+                 "intervals + get_current_infinite_intervals, resp. get_index_persistence_diagram / get_persistence_diagram / "
+                 "the streamed value intervals, are compared as sorted multisets with the oracle (ev.evaluations = multiset "
+                 "comparisons); ev.transitions = API calls; non-trivial = history with at least one removal whose "
+                 "decomposition has at least one finite bar"),
         "bounds": {
             "quick": ("triangle universe: all 38 159 histories of depth <= 7 x 8 column types, filtered front-ends with every "
-                      "monotone value sequence over {0,1,2} up to depth 5 and 3 fixed sequences up to depth 7; square, two "
-                      "triangles (depth <= 6), CW universe (depth <= 7) for 2 column types; seeded with the full complex: two "
-                      "triangles +4, hollow tetrahedron +3, square +5 for 3 column types"),
-            "thorough": ("triangle depth <= 10 (plain; filtered front-ends to depth 9, all value sequences to depth 6), square and "
-                         "two triangles depth <= 8 (filtered to 7), CW depth <= 10, seeded: triangle +8, square +7, two "
-                         "triangles +6, hollow tetrahedron +5; all 8 column types"),
+                      "monotone value sequence over {0,1,2} up to depth 5 and 3 fixed sequences up to depth 7; seeded with the "
+                      "full complex (8 column types): two triangles +4 (and +3 after the reverse insertion order), hollow "
+                      "tetrahedron +3, square +5; from empty for 2 column types: square, two triangles depth <= 6, CW "
+                      "universe depth <= 7"),
+            "thorough": ("triangle depth <= 10 (3 784 265 histories) for NAIVE_VECTOR, SET, INTRUSIVE_LIST and <= 9 for the "
+                         "other 5 column types; filtered front-ends to depth 9 / all value sequences to depth 6 for the default "
+                         "column type (7 / 5 for the others); square and two triangles depth <= 8 (default) / 7, CW depth <= "
+                         "10 / 9; seeded with the full complex, all 8 column types: triangle +8, square +7, two triangles +6 "
+                         "(+5 reverse order), hollow tetrahedron +5 (+4 reverse order)"),
         },
         "assumptions": [
             "documented preconditions only: a cell is inserted when absent and all its faces are present, removed when present "
